@@ -1,5 +1,131 @@
-import TcheranVerif.Model.Eval
+import TcheranVerif.Proofs.LegalPos
+import TcheranVerif.Props.C07
+/-!
+# C01 — legal move generation is exact
+
+Model: `Model/Movegen.lean` (staged bitboard generator: checkers, check mask, pin masks, captures then
+quiets) against `Model/Rules.lean` (mailbox; a move is legal iff pseudo-legal and the mover's king is
+not attacked afterwards). All statements are for **every** position, not a sample.
+
+* `attackers_exact`, `attacked_verdict` — bit `q` of `generate_attackers_of(board, player, t)` is set
+  exactly when the man on `q` attacks `t` under the rules; the set is non-empty iff `t` is attacked.
+* `check_verdict` — `Board::king_in_check` agrees with the rules whenever the side has a king.
+* `generate_exact` — in every position meeting `PosH` (the side to move has exactly one king, the
+  e.p. target and the castling rights are consistent with the placement, the three board views agree)
+  both generator stages answer (no panic) and together list exactly the rules' legal moves: same squares,
+  same capture / e.p. / castling / promotion label. `generate_exact_legal` derives `PosH` from the decidable
+  `Legal` predicate of the quantifier; `generateLegal_exact` is the same for `generate_legal_moves`,
+  whose only other outcome is the 218-move capacity of `MoveList`.
+* per class: `king_moves_exact`, `knight_moves_exact`, `slider_moves_exact_gen`, the seven pawn stages,
+  `enPassant_spec`, `castles_spec` (`Proofs/*.lean`), on top of `plain_legal_iff` (checkers and pins),
+  `pins_family` (what `get_pins` computes) and `pin_generic`.
+
+The two slider lookups enter through `SliderTables`; the `_tables` corollaries discharge it with
+`Props.C07` and therefore inherit that file's one `native_decide` (the 107,648-case table sweep).
+"None listed twice" (duplicate-freeness of the generated list) is not mechanised: partial; it is decided
+by the `moves` stream on every sampled position.
+-/
 namespace Tcheran.Props.C01
-theorem placeholder : True := trivial
+open Tcheran Tcheran.Board Tcheran.Rules
+
+theorem attackers_exact (T : SliderTables) (b : Board) (hc : Consistent b) (p : Player) (t q : Sq) :
+    mem (attackersOf b p t) q = true ↔ AttacksFrom b.squares p.other q t :=
+  mem_attackersOf T b hc p t q
+
+theorem attacked_verdict (T : SliderTables) (b : Board) (hc : Consistent b) (p : Player) (t : Sq) :
+    attackersOf b p t ≠ 0#64 ↔ attacked b.squares p.other t = true :=
+  attackersOf_ne_zero T b hc p t
+
+theorem check_verdict (T : SliderTables) (b : Board) (hc : Consistent b) (p : Player) (k : Sq)
+    (hk : kingSq b.squares p = some k) : kingInCheck b p = some (inCheck b.squares p) :=
+  kingInCheck_agrees T b hc p k hk
+
+/-- **generate_exact** -/
+theorem generate_exact (T : SliderTables) (g : Game) (k : Sq) (h : PosH g k) :
+    ∃ caps cache quiets, generateCaptures g = some (caps, cache) ∧ generateQuiets g cache = some quiets ∧
+      ∀ m, m ∈ caps ++ quiets ↔ m ∈ legalMoves (ofGame g) :=
+  Tcheran.generate_exact T g k h
+
+/-- the same from the decidable `Legal` predicate -/
+theorem generate_exact_legal (T : SliderTables) (g : Game) (hc : Consistent g.board)
+    (hl : legalPos (ofGame g) = true) :
+    ∃ caps cache quiets, generateCaptures g = some (caps, cache) ∧ generateQuiets g cache = some quiets ∧
+      ∀ m, m ∈ caps ++ quiets ↔ m ∈ legalMoves (ofGame g) := by
+  obtain ⟨k, h⟩ := posH_of_legal g hc hl
+  exact Tcheran.generate_exact T g k h
+
+/-- `generate_legal_moves`: either exactly the legal moves, or more than 218 moves were generated -/
+theorem generateLegal_exact (T : SliderTables) (g : Game) (hc : Consistent g.board)
+    (hl : legalPos (ofGame g) = true) :
+    (∃ ms, generateLegal g = some ms ∧ ∀ m, m ∈ ms ↔ m ∈ legalMoves (ofGame g)) ∨
+    (generateLegal g = none ∧ ∃ ms : List Move, ms.length > 218 ∧ ∀ m, m ∈ ms ↔ m ∈ legalMoves (ofGame g)) := by
+  obtain ⟨caps, cache, quiets, h1, h2, h3⟩ := generate_exact_legal T g hc hl
+  by_cases hlen : (caps ++ quiets).length > 218
+  · right
+    refine ⟨?_, caps ++ quiets, hlen, h3⟩
+    unfold generateLegal
+    rw [h1]
+    show (do let quiets ← generateQuiets g cache; _) = _
+    rw [h2]
+    show (if (caps ++ quiets).length > 218 then none else _) = none
+    rw [if_pos hlen]
+  · left
+    refine ⟨caps ++ quiets, ?_, h3⟩
+    unfold generateLegal
+    rw [h1]
+    show (do let quiets ← generateQuiets g cache; _) = _
+    rw [h2]
+    show (if (caps ++ quiets).length > 218 then none else _) = _
+    rw [if_neg hlen]
+    rfl
+
+/-- the engine's in-check verdict for the side to move of a legal position -/
+theorem check_verdict_legal (T : SliderTables) (g : Game) (hc : Consistent g.board)
+    (hl : legalPos (ofGame g) = true) :
+    kingInCheck g.board g.player = some (inCheck g.board.squares g.player) := by
+  obtain ⟨k, h⟩ := posH_of_legal g hc hl
+  exact kingInCheck_agrees T g.board hc g.player k (kingSq_unique _ _ k h.ctx.king)
+
+/-- the slider tables of the engine are the ray walks (`Props.C07`; carries its `native_decide`) -/
+theorem sliderTables : SliderTables :=
+  ⟨Tcheran.Props.C07.rook_table_geometric, Tcheran.Props.C07.bishop_table_geometric⟩
+
+theorem generate_exact_tables (g : Game) (hc : Consistent g.board) (hl : legalPos (ofGame g) = true) :
+    ∃ caps cache quiets, generateCaptures g = some (caps, cache) ∧ generateQuiets g cache = some quiets ∧
+      ∀ m, m ∈ caps ++ quiets ↔ m ∈ legalMoves (ofGame g) :=
+  generate_exact_legal sliderTables g hc hl
+
+theorem check_verdict_tables (g : Game) (hc : Consistent g.board) (hl : legalPos (ofGame g) = true) :
+    kingInCheck g.board g.player = some (inCheck g.board.squares g.player) :=
+  check_verdict_legal sliderTables g hc hl
+
+/-- non-vacuity: the position of the first defect found (`7b/8/8/4Pp2/3K4/8/8/k7 w - f6`: a white pawn
+pinned on the very diagonal along which it may capture en passant) meets every hypothesis -/
+def demoBoard : Board :=
+  ((((Board.empty.setAt ⟨27, by decide⟩ ⟨.king, .white⟩).setAt ⟨0, by decide⟩ ⟨.king, .black⟩).setAt
+    ⟨36, by decide⟩ ⟨.pawn, .white⟩).setAt ⟨37, by decide⟩ ⟨.pawn, .black⟩).setAt ⟨63, by decide⟩ ⟨.bishop, .black⟩
+
+def demoGame : Game :=
+  { player := .white, board := demoBoard, rights := Rights.none, ep := some ⟨45, by decide⟩, halfmove := 0,
+    plies := 0, zobrist := 0#64, inc := default, history := [] }
+
+theorem demo_consistent : Consistent demoBoard := by
+  unfold demoBoard
+  refine consistent_setAt _ _ _ (consistent_setAt _ _ _ (consistent_setAt _ _ _ (consistent_setAt _ _ _
+    (consistent_setAt _ _ _ consistent_empty ?_) ?_) ?_) ?_) ?_ <;> decide +kernel
+
+theorem demo_legal : legalPos (ofGame demoGame) = true := by decide +kernel
+
 end Tcheran.Props.C01
-#print axioms Tcheran.Props.C01.placeholder
+#print axioms Tcheran.Props.C01.attackers_exact
+#print axioms Tcheran.Props.C01.attacked_verdict
+#print axioms Tcheran.Props.C01.check_verdict
+#print axioms Tcheran.Props.C01.generate_exact
+#print axioms Tcheran.Props.C01.generate_exact_legal
+#print axioms Tcheran.Props.C01.generateLegal_exact
+#print axioms Tcheran.Props.C01.check_verdict_legal
+#print axioms Tcheran.Props.C01.sliderTables
+#print axioms Tcheran.Props.C01.generate_exact_tables
+#print axioms Tcheran.Props.C01.check_verdict_tables
+#print axioms Tcheran.Props.C01.demo_consistent
+#print axioms Tcheran.Props.C01.demo_legal
